@@ -103,7 +103,7 @@ NextCase(k) == IF \E j \in k + 1 .. Len(Trace) : Trace[j].ev = "Case"
 
 Mismatch == /\ l <= Len(Trace) /\ ~ENABLED Normal
             /\ bad' = Append(bad, l)
-            /\ l' = IF Len(bad) >= 20000 THEN Len(Trace) + 1 ELSE NextCase(l)
+            /\ l' = IF Len(bad) >= 1000000 THEN Len(Trace) + 1 ELSE NextCase(l)
             /\ Idle
 
 MismatchEOF == /\ l = Len(Trace) + 1 /\ ph # "idle"
